@@ -2,9 +2,16 @@
 //! properties: C01
 //! note: the receiving side's acceptance tests on update_add_htlc (ChannelContext::validate_update_add_htlc): a peer HTLC that keeps the sender above the reserve we selected, within our in-flight and count limits, is not refused; anything that violates one of them is
 //! trusted: R15 (statement slicing): validate_update_add_htlc calls get_next_remote/local_commitment_stats (proved in unit u01 as get_next_commitment_stats) through the channel context; the unit extracts, on every run, its four local `if <cond> { return Err(..) }` tests with their conditions verbatim and checks them as one method of a context skeleton {holder_max_accepted_htlcs, holder_max_htlc_value_in_flight_msat}; msg/funding/stats are field skeletons; error construction replaced by tags; the two stats calls are represented by their results (Err => refused is visible in the sliced text as `?` is dropped: stated here, not claimed)
+//! trusted: assume_specification for core::cmp::max / core::cmp::min (std definitions); can_accept_incoming_htlc is extracted whole with the same kind of stubs as validate_update_fee (acc_stats / acc_max_dust uninterpreted); R9: the tuple-pattern closure `|(fee, _)| fee` is written with a named parameter
 //! trusted: validate_update_fee is extracted whole; its callees get_next_local/remote_commitment_stats (thin wrappers of the builder function proved in u01), get_dust_exposure_limiting_feerate and get_max_dust_htlc_exposure_msat are external_body stubs returning uninterpreted values (local_stats_at / remote_stats_at / max_dust_exposure); FundingScope/ChannelContext self skeletons (R5); error messages dropped (R8)
 use vstd::prelude::*;
 verus! {
+use vstd::std_specs::cmp::*;
+use core::cmp;
+pub assume_specification<T: core::cmp::Ord>[core::cmp::max::<T>](a: T, b: T) -> (r: T)
+    ensures T::obeys_cmp_spec() ==> r == (if b.cmp_spec(&a) == core::cmp::Ordering::Less { a } else { b });
+pub assume_specification<T: core::cmp::Ord>[core::cmp::min::<T>](a: T, b: T) -> (r: T)
+    ensures T::obeys_cmp_spec() ==> r == (if b.cmp_spec(&a) == core::cmp::Ordering::Less { b } else { a });
 pub struct UpdateAddHTLC { pub amount_msat: u64 }
 pub struct FundingScope { pub value_satoshis: u64, pub holder_selected_channel_reserve_satoshis: u64 }
 impl FundingScope { pub fn get_value_satoshis(&self) -> (r: u64) ensures r == self.value_satoshis { self.value_satoshis } }
@@ -95,6 +102,64 @@ impl FeeCtx {
     if remote_stats.commitment_stats.dust_exposure_msat > max_dust_htlc_exposure_msat {
 //@with
     if false {
+//@end
+}
+
+// ---- a committed incoming HTLC is forwarded/accepted only if both commitments stay affordable (ChannelContext::can_accept_incoming_htlc, whole function) ----
+pub trait Logger {}
+#[derive(Clone, Copy)] pub enum FeeUpdateState { RemoteAnnounced, AwaitingRemoteRevokeToAnnounce, Outbound }
+pub enum LocalHTLCFailureReason { ChannelBalanceOverdrawn, DustLimitCounterparty, DustLimitHolder, FeeSpikeBuffer }
+pub struct ChanType { pub zfc: bool }
+impl ChanType { #[verifier::external_body] pub fn supports_anchor_zero_fee_commitments(&self) -> (r: bool) ensures r == self.zfc { unimplemented!() } }
+pub struct AccFunding { pub holder_selected_channel_reserve_satoshis: u64, pub ct: ChanType, pub outbound: bool }
+impl AccFunding {
+    #[verifier::external_body] pub fn get_channel_type(&self) -> (r: &ChanType) ensures *r == self.ct { unimplemented!() }
+    #[verifier::external_body] pub fn is_outbound(&self) -> (r: bool) ensures r == self.outbound { unimplemented!() }
+}
+pub struct AccCtx { pub feerate_per_kw: u32, pub pending_update_fee: Option<(u32, FeeUpdateState)> }
+pub uninterp spec fn acc_stats(c: AccCtx, f: AccFunding, local: bool, addl_nondust_htlc_count: usize, feerate: u32, fee_spike: bool) -> FeeChannelStats;
+pub uninterp spec fn acc_max_dust(c: AccCtx, limiting: Option<u32>) -> u64;
+pub open spec fn acc_feerate(c: AccCtx) -> u32 {
+    if c.pending_update_fee is Some && c.pending_update_fee->Some_0.0 > c.feerate_per_kw { c.pending_update_fee->Some_0.0 } else { c.feerate_per_kw }
+}
+pub open spec fn acc_buffer(f: AccFunding) -> usize { if f.ct.zfc { 0 } else { 1 } }
+impl AccCtx {
+    #[verifier::external_body] pub fn get_max_dust_htlc_exposure_msat(&self, limiting: Option<u32>) -> (r: u64) ensures r == acc_max_dust(*self, limiting) { unimplemented!() }
+    #[verifier::external_body] pub fn get_next_local_commitment_stats(&self, funding: &AccFunding, htlc_candidate: Option<HTLCAmountDirection>, include_counterparty_unknown_htlcs: bool,
+        addl_nondust_htlc_count: usize, feerate_per_kw: u32, assume_fee_spike: bool, dust_exposure_limiting_feerate: Option<u32>) -> (r: Result<(FeeChannelStats, Vec<HTLCAmountDirection>), ()>)
+        ensures r is Ok ==> r->Ok_0.0 == acc_stats(*self, *funding, true, addl_nondust_htlc_count, feerate_per_kw, assume_fee_spike) { unimplemented!() }
+    #[verifier::external_body] pub fn get_next_remote_commitment_stats(&self, funding: &AccFunding, htlc_candidate: Option<HTLCAmountDirection>, include_counterparty_unknown_htlcs: bool,
+        addl_nondust_htlc_count: usize, feerate_per_kw: u32, assume_fee_spike: bool, dust_exposure_limiting_feerate: Option<u32>) -> (r: Result<(FeeChannelStats, Vec<HTLCAmountDirection>), ()>)
+        ensures r is Ok ==> r->Ok_0.0 == acc_stats(*self, *funding, false, addl_nondust_htlc_count, feerate_per_kw, assume_fee_spike) { unimplemented!() }
+//@extract lightning/src/ln/channel.rs :: impl ChannelContext :: fn can_accept_incoming_htlc
+//@rw R5
+    funding: &FundingScope
+//@with
+    funding: &AccFunding
+//@rw R9
+    .map(|(fee, _)| fee)
+//@with
+    .map(|p: (u32, FeeUpdateState)| -> (o: u32) ensures o == p.0 { p.0 })
+//@rw R9 *
+    .map_err(|()| { $e })?
+//@with
+    .map_err(|_e: ()| -> (o: LocalHTLCFailureReason) { $e })?
+//@ret r
+//@requires
+    funding.holder_selected_channel_reserve_satoshis <= 21_000_000_0000_0000,
+//@ensures P C01 an-incoming-htlc-is-accepted-only-if-at-the-higher-of-the-current-and-pending-feerate-with-the-fee-spike-buffer-both-dust-exposures-stay-within-our-limit-and-a-funding-peer-stays-above-our-reserve
+    r is Ok ==> acc_stats(*self, *funding, false, acc_buffer(*funding), acc_feerate(*self), false).commitment_stats.dust_exposure_msat <= acc_max_dust(*self, dust_exposure_limiting_feerate)
+        && acc_stats(*self, *funding, true, acc_buffer(*funding), acc_feerate(*self), false).commitment_stats.dust_exposure_msat <= acc_max_dust(*self, dust_exposure_limiting_feerate)
+        && (!funding.outbound ==> acc_stats(*self, *funding, false, acc_buffer(*funding), acc_feerate(*self), true).commitment_stats.counterparty_balance_msat as int
+                >= funding.holder_selected_channel_reserve_satoshis as int * 1000),
+//@mutant fee_spike_reserve_check_skipped_for_inbound_channels
+    if !funding.is_outbound() {
+//@with
+    if funding.is_outbound() {
+//@mutant pending_higher_feerate_ignored
+    cmp::max(self.feerate_per_kw, self.pending_update_fee.map(|(fee, _)| fee).unwrap_or(0))
+//@with
+    cmp::min(self.feerate_per_kw, self.pending_update_fee.map(|(fee, _)| fee).unwrap_or(u32::MAX))
 //@end
 }
 }
